@@ -7,7 +7,7 @@ random / mutated large inputs (the tokenizer's path count explodes under symboli
 """
 from __future__ import annotations
 
-from vf.ob import HELD, SKIP, VIOL, select, xh_ob
+from vf.ob import HELD, SKIP, VIOL, pick, pickb, select, xh_ob
 
 PROP = "C20"
 META = {
@@ -41,7 +41,7 @@ def _mk_tokens(first, nmax, smax=1, concrete=False):
         from octave_mcp.core.lexer import Token, TokenType as T
         from octave_mcp.core.parser import Parser, ParserError
 
-        k1, k2, n, strict = realize(k1), realize(k2), realize(n), realize(strict)
+        k1, k2, n, strict = pick(k1, 30), pick(k2, 30), pick(n, 3, 1), pickb(strict)
         if concrete:
             s, num, ind = "K", 1, 2
         with NoTracing():
@@ -91,7 +91,7 @@ def P_nesting(depth_i: int, entry: int, pos: int) -> int:
     from crosshair.tracers import NoTracing
     from octave_mcp.core.parser import MAX_NESTING_DEPTH, ParserError, parse, parse_meta_only, parse_with_warnings
 
-    depth_i, entry, pos = realize(depth_i), realize(entry), realize(pos)
+    depth_i, entry, pos = pick(depth_i, 5), pick(entry, 3), pick(pos, 4)
     with NoTracing():
         depth = [MAX_NESTING_DEPTH - 1, MAX_NESTING_DEPTH, MAX_NESTING_DEPTH + 1, MAX_NESTING_DEPTH * 4, MAX_NESTING_DEPTH * 60][depth_i]
         v = "[" * depth + "x" + "]" * depth
@@ -129,7 +129,7 @@ def J_converted_values_serialise(k0: int, k1: int, k2: int, fmt: int, s: str, nu
     from octave_mcp.core.ast_nodes import Assignment, Block, Document, HolographicValue, InlineMap, ListValue, LiteralZoneValue, Section
     from octave_mcp.mcp import eject as ej
 
-    k0, k1, k2, fmt = realize(k0), realize(k1), realize(k2), realize(fmt)
+    k0, k1, k2, fmt = pick(k0, 9), pick(k1, 9), pick(k2, 7), pick(fmt, 2)
     if _HV[0] is None:
         with NoTracing():
             _setup_hv()
@@ -215,7 +215,7 @@ def T_tools(ci: int, tool: int, fmt: int, mode: int, f1: bool, f2: bool, f3: boo
     from crosshair.tracers import NoTracing
     from harness.toolworld import drive
 
-    ci, tool, fmt, mode, f1, f2, f3, schema_i = realize(ci), realize(tool), realize(fmt), realize(mode), realize(f1), realize(f2), realize(f3), realize(schema_i)
+    ci, tool, fmt, mode, f1, f2, f3, schema_i = pick(ci, 17), pick(tool, 4), pick(fmt, 5), pick(mode, 4), pickb(f1), pickb(f2), pickb(f3), pick(schema_i, 3)
     with NoTracing():
         from octave_mcp.mcp.compile_grammar import CompileGrammarTool
         from octave_mcp.mcp.eject import EjectTool
@@ -354,7 +354,7 @@ def obligations(tier):
     kinds = 30
     nmax = 3 if th else 2
     for first in range(kinds):
-        obs.append(xh_ob(PROP, f"P.token-sequences[first-kind={first}]", _mk_tokens(first, 3 if th else 2, concrete=True), timeout=2400 if th else 600, bound=f"all token-kind sequences of length 1-{3 if th else 2} over the 30 non-EOF token kinds starting with this kind (kinds chosen by the solver; one run of the real parser per choice, token texts are fixed placeholders), strict and lenient structure", functions=["parser.Parser.parse_document and everything below it"]))
+        obs.append(xh_ob(PROP, f"P.token-sequences[first-kind={first}]", _mk_tokens(first, 3, concrete=True), timeout=900, bound=f"all token-kind sequences of length 1-3 over the 30 non-EOF token kinds starting with this kind (kinds chosen by the solver; one run of the real parser per choice, token texts are fixed placeholders), strict and lenient structure", functions=["parser.Parser.parse_document and everything below it"]))
     if th:
         for first in range(kinds):
             obs.append(xh_ob(PROP, f"P.token-sequences-symbolic-texts[first-kind={first}]", _mk_tokens(first, 2, smax=1), timeout=2400, tiers=("thorough",), optional=True, bound="deepening: sequences of length 1-2 starting with this kind where the text of IDENTIFIER/STRING/COMMENT/ENVELOPE_START/VARIABLE tokens is one symbolic string |s| <= 1 (any character), NUMBER any int, INDENT width 0..6; not claimed if the path tree is not exhausted", functions=["parser.Parser.parse_document and everything below it"]))
